@@ -7,6 +7,21 @@ HERE = os.path.dirname(os.path.dirname(os.path.abspath(__file__)))
 CMD = "PYTHONPATH=/repo/src PYTHONHASHSEED=0 /venv/bin/python harness/check.py %s --tier %s"
 
 CHECKS = {
+    "C08": dict(
+        engine="E6-wire",
+        technique="Coq proof (general losslessness law for table-driven record conversion; per converter: the table REGENERATED from /repo/src equals the intended pairing and is lossless for the REGENERATED field list; convert_value injective) + serialise/parse round trips of collector-produced snapshots against a field-by-field oracle + captured request metadata",
+        text="7 Coq theorems: a conversion table in which every record field is the source of exactly one message field loses "
+             "nothing for any record (unconvert (convert s) f = s f for every field f), and nothing is invented; instantiated "
+             "for the six converters of push/__init__.py (snapshot, tracepoint, frame, variable, variable id, watch) whose "
+             "tables and field lists are regenerated from the source on every run and must equal the pairing the protocol "
+             "intends (none dropped, duplicated or swapped); attribute values (bool, text, int, float, sequences) are "
+             "converted injectively. Search: snapshots from the real collector on generated/hostile graphs plus variations "
+             "(error watches, lone surrogates, tuple attributes, numeric args, empty and 3000-entry tables) through the real "
+             "convert_snapshot, SerializeToString, FromString, every field compared; 5 auth configurations with the metadata "
+             "of every poll and send request captured. PARTIAL: protobuf's encoder and gRPC are exercised, not modelled.",
+        note="Trusted: Coq kernel+VM; translator wiremap.py; the intended pairing (props/C08.v, from the .proto documentation); "
+             "text that is not valid unicode arrives escaped (it cannot be carried otherwise).",
+        design="5-C08"),
     "C01": dict(
         engine="E3-exnflow",
         technique="Coq proof over a skeleton REGENERATED from /repo/src by a fail-closed Python-ast translator (verified may-escape and return-path analyses of an exception-flow language with a nondeterministic fault semantics) + fault injection at named sites + differential live runs",
@@ -280,6 +295,8 @@ def main():
                  serves_properties=["C09", "C12", "C13", "C14"], kind_free_text="Gallina state machines of the configuration service / task handler / lifecycle; real services under controlled executors and scripted stubs"),
             dict(name="E3-exnflow", path="coq/theories/ExnFlow.v coq/gen/Skeleton.v harness/translate/exnflow.py harness/translate/gen.py coq/theories/Plugins.v coq/theories/PluginsProofs.v harness/props/c01.py harness/props/c20.py",
                  serves_properties=["C01", "C14", "C20"], kind_free_text="exception-flow language with verified may-escape / return-path / loop analyses; skeletons regenerated from the Python source by a fail-closed ast translator on every run; fault injection"),
+            dict(name="E6-wire", path="coq/theories/Wire.v coq/theories/WireProofs.v coq/gen/WireMap.v harness/translate/wiremap.py harness/props/c08.py",
+                 serves_properties=["C08"], kind_free_text="records as finite maps, table-driven conversion, losslessness law; tables regenerated from the converter functions; serialise/parse oracle"),
             dict(name="E4-stores", path="coq/theories/Attrs.v coq/theories/AttrsProofs.v coq/theories/Config.v harness/props/c18.py harness/props/c19.py",
                  serves_properties=["C18", "C19"], kind_free_text="Gallina models of the attribute store, resources, configuration resolution; proofs; in-Coq correspondence"),
         ],
